@@ -348,7 +348,8 @@ fn build_kind() -> &'static str {
 pub fn write_replay(prop: &str, reg: &Registry, shape: Option<usize>, tape: &[u8], msg: &str, kind: &str) -> PathBuf {
     let mut h = std::collections::hash_map::DefaultHasher::new();
     (prop, shape.map(|s| reg.shapes[s].ty().short()), tape, kind).hash(&mut h);
-    let dir = Path::new(VERIF).join("replays");
+    // (tools/mutate.py redirects the replay files of its scratch runs)
+    let dir = std::env::var("VERIF_REPLAY_DIR").map(PathBuf::from).unwrap_or_else(|_| Path::new(VERIF).join("replays"));
     std::fs::create_dir_all(&dir).ok();
     let path = dir.join(format!("{}-{:016x}.json", prop, h.finish()));
     let j = json!({
@@ -603,17 +604,27 @@ pub fn supervise(prop: &dyn Property, tier: Tier, seed: u64) -> i32 {
             .filter(|p| p.file_name().and_then(|n| n.to_str()).map(|n| n.starts_with(&format!("{}-", prop.id())) && n.ends_with(".json")).unwrap_or(false))
             .collect();
         files.sort();
-        for f in files.iter().take(60) {
+        // (up to 120 per property, 16 replay processes at a time)
+        let files: Vec<PathBuf> = files.into_iter().take(120).collect();
+        for chunk in files.chunks(16) {
             use std::os::unix::process::ExitStatusExt;
-            let st = std::process::Command::new(&exe)
-                .args(["replay", "--file", f.to_str().unwrap()])
-                .stdout(std::process::Stdio::null())
-                .stderr(std::process::Stdio::null())
-                .status()
-                .expect("harness: spawn replay");
-            regress_count += 1;
-            if st.signal().is_some() || st.code() == Some(1) {
-                violations.push((f.display().to_string(), "regression case fails again".into()));
+            let kids: Vec<_> = chunk
+                .iter()
+                .map(|f| {
+                    std::process::Command::new(&exe)
+                        .args(["replay", "--file", f.to_str().unwrap()])
+                        .stdout(std::process::Stdio::null())
+                        .stderr(std::process::Stdio::null())
+                        .spawn()
+                        .expect("harness: spawn replay")
+                })
+                .collect();
+            for (f, mut k) in chunk.iter().zip(kids) {
+                let st = k.wait().expect("harness: wait replay");
+                regress_count += 1;
+                if st.signal().is_some() || st.code() == Some(1) {
+                    violations.push((f.display().to_string(), "regression case fails again".into()));
+                }
             }
         }
     }
